@@ -1007,6 +1007,27 @@ class RealEnv:
         I['authentication'].hashlib = self.old_hashlib
         shutil.rmtree(self.root, ignore_errors=True)
 
+    last_user = None
+
+    def home_of_user(self, text):
+        """The home directory (symbolic) of the user a DBUS_COOKIE_SHA1 client named (name or uid text)."""
+        if text is None:
+            return None
+        name = text
+        try:
+            uid = int(text)
+            name = None
+            for u in self.spec['users']:
+                if u[1] == uid:
+                    name = u[0]
+                    break
+        except ValueError:
+            pass
+        for u in self.spec['users']:
+            if u[0] == name:
+                return u[3]
+        return None
+
     # -- observation of the file system
     def file_entries(self, h):
         p = os.path.join(self.home(h), '.dbus-keyrings', self.ctxname)
@@ -1063,6 +1084,7 @@ def resolve_action(act, env, last_data):
     if k == 'raw':
         return binascii.unhexlify(act[1]) if act[1] != '-' else b''
     if k == 'auth-cookie':
+        env.last_user = act[1]
         return b'AUTH DBUS_COOKIE_SHA1 ' + binascii.hexlify(act[1].encode('ascii'))
     if k == 'auth-external':
         return b'AUTH EXTERNAL' + ((b' ' + binascii.hexlify(act[1].encode('ascii'))) if act[1] is not None else b'')
@@ -1071,7 +1093,10 @@ def resolve_action(act, env, last_data):
         chal, cookie = b'00', b'00'
         try:
             ctxn, cid, chal = binascii.unhexlify(last_data.split(b' ', 1)[1].strip()).split()
-            for h in sorted({u[3] for u in env.spec['users']}):
+            homes = sorted({u[3] for u in env.spec['users']})
+            mine = env.home_of_user(env.last_user)
+            # a client reads its own keyring; fall back to any home only when the user is unknown
+            for h in ([mine] if mine is not None else homes):
                 for ent in (env.file_entries(h) or []):
                     if ent[0] == cid:
                         cookie = ent[2]
